@@ -59,8 +59,8 @@ type graph struct {
 	cfg     json.RawMessage
 	initObs string
 	init    string
-	adj   map[string][]*gEdge
-	edges []*gEdge
+	adj     map[string][]*gEdge
+	edges   []*gEdge
 }
 
 func loadGraph(t testing.TB, path string) *graph {
